@@ -41,6 +41,8 @@ type Config struct {
 	Modfile  string   // alternative go.mod (-modfile) or ""
 	ImportMap map[string]string // import path replacement (environment models)
 	premapped map[string]string
+	RenameMain map[string]string // package path suffix -> new name of func main
+	HTTPSeams  bool              // route net/http server and client calls to vhttp
 }
 
 // Run instruments and returns the overlay including rewritten files.
@@ -56,7 +58,7 @@ func Run(cfg Config) (map[string]string, error) {
 	}
 	// Environment models: replace import paths textually before loading, so that the whole
 	// closure is type-checked against the model packages.
-	if len(cfg.ImportMap) > 0 {
+	if len(cfg.ImportMap) > 0 || len(cfg.RenameMain) > 0 {
 		if err := premapImports(cfg, ov); err != nil {
 			return nil, err
 		}
@@ -132,7 +134,12 @@ func Run(cfg Config) (map[string]string, error) {
 		if skip {
 			continue
 		}
-		rw := &rewriter{pkg: p, fset: fset, info: p.TypesInfo, probes: probes, fsPoints: cfg.FsPoints, importMap: cfg.ImportMap}
+		rw := &rewriter{pkg: p, fset: fset, info: p.TypesInfo, probes: probes, fsPoints: cfg.FsPoints, importMap: cfg.ImportMap, httpSeams: cfg.HTTPSeams}
+		for suffix, nn := range cfg.RenameMain {
+			if strings.HasSuffix(pp, suffix) {
+				rw.renameMain = nn
+			}
+		}
 		dir := filepath.Join(cfg.OutDir, strings.ReplaceAll(strings.TrimPrefix(pp, modPath), "/", "_"))
 		if err := os.MkdirAll(dir, 0755); err != nil {
 			return nil, err
@@ -191,6 +198,9 @@ type rewriter struct {
 	probes   map[string]bool
 	fsPoints bool
 	importMap map[string]string
+	httpSeams bool
+	renameMain string
+	usedHTTP bool
 }
 
 func sel(x, name string) ast.Expr {
@@ -280,6 +290,9 @@ func (r *rewriter) file(f *ast.File) {
 		switch n := c.Node().(type) {
 		case *ast.FuncDecl:
 			r.probe(n)
+			if r.renameMain != "" && n.Recv == nil && n.Name.Name == "main" && !strings.HasPrefix(filepath.Base(r.fset.Position(n.Pos()).Filename), "zz_verif") {
+				n.Name = ast.NewIdent(r.renameMain)
+			}
 		case *ast.GoStmt:
 			r.used = true
 			c.Replace(r.rewriteGo(n))
@@ -337,6 +350,15 @@ func (r *rewriter) file(f *ast.File) {
 					}
 				}
 			}
+			if r.httpSeams {
+				if se, ok := n.Fun.(*ast.SelectorExpr); ok && se.Sel.Name == "Do" {
+					if s := info.Selections[se]; s != nil && s.Kind() == types.MethodVal && isNamed(s.Recv(), "net/http", "Client") {
+						r.usedHTTP = true
+						n.Args = append([]ast.Expr{se.X}, n.Args...)
+						n.Fun = sel("vhttp", "Do")
+					}
+				}
+			}
 			if r.fsPoints {
 				if se, ok := n.Fun.(*ast.SelectorExpr); ok {
 					if s := info.Selections[se]; s != nil && s.Kind() == types.MethodVal {
@@ -383,6 +405,11 @@ func (r *rewriter) file(f *ast.File) {
 					r.used = true
 					c.Replace(sel("vrt", "RandReader"))
 				}
+			case "net/http":
+				if r.httpSeams && (n.Sel.Name == "HandleFunc" || n.Sel.Name == "ListenAndServe") {
+					r.usedHTTP = true
+					c.Replace(sel("vhttp", n.Sel.Name))
+				}
 			case "os":
 				if n.Sel.Name == "Exit" {
 					r.used = true
@@ -403,8 +430,12 @@ func (r *rewriter) file(f *ast.File) {
 	if r.used {
 		astutil.AddNamedImport(r.fset, f, "vrt", vrtPath)
 	}
+	if r.usedHTTP {
+		astutil.AddNamedImport(r.fset, f, "vhttp", modPath+"/internal/verif/venv/vhttp")
+		r.usedHTTP = false
+	}
 
-	for _, imp := range []string{"sync", "sync/atomic", "time", "context", "crypto/rand", "os"} {
+	for _, imp := range []string{"sync", "sync/atomic", "time", "context", "crypto/rand", "os", "net/http"} {
 		if !astutil.UsesImport(f, imp) {
 			astutil.DeleteImport(r.fset, f, imp)
 			// named imports of the same path
@@ -430,6 +461,16 @@ func usesName(f *ast.File, name string) bool {
 		return true
 	})
 	return used
+}
+
+func isNamed(t types.Type, pkg, name string) bool {
+	if p, ok := t.(*types.Pointer); ok {
+		t = p.Elem()
+	}
+	if n, ok := t.(*types.Named); ok {
+		return n.Obj().Pkg() != nil && n.Obj().Pkg().Path() == pkg && n.Obj().Name() == name
+	}
+	return false
 }
 
 func isOsFile(t types.Type) bool {
@@ -677,6 +718,9 @@ func (r *rewriter) resetFile() []byte {
 		if v.Name() == "_" {
 			return false
 		}
+		if strings.HasPrefix(filepath.Base(r.fset.Position(v.Pos()).Filename), "zz_verif") {
+			return false // harness state living in a repository package
+		}
 		t := v.Type()
 		if !mutableType(t, 0) {
 			return false
@@ -871,9 +915,21 @@ func premapImports(cfg Config, ov map[string][]byte) error {
 				edits = append(edits, edit{fs.Position(is.Path.Pos()).Offset, fs.Position(is.Path.End()).Offset, fmt.Sprintf("%q", np)})
 			}
 		}
+		for suffix, nn := range cfg.RenameMain {
+			if strings.HasSuffix(filepath.Dir(path), suffix) && !strings.HasPrefix(filepath.Base(path), "zz_verif") {
+				if ff, err := parser.ParseFile(fs, path, src, 0); err == nil {
+					for _, d := range ff.Decls {
+						if fd, ok := d.(*ast.FuncDecl); ok && fd.Recv == nil && fd.Name.Name == "main" {
+							edits = append(edits, edit{fs.Position(fd.Name.Pos()).Offset, fs.Position(fd.Name.End()).Offset, nn})
+						}
+					}
+				}
+			}
+		}
 		if len(edits) == 0 {
 			return nil
 		}
+		sort.Slice(edits, func(i, j int) bool { return edits[i].off < edits[j].off })
 		out := append([]byte(nil), src...)
 		for i := len(edits) - 1; i >= 0; i-- {
 			e := edits[i]
